@@ -383,19 +383,28 @@ func (p *Pebble) NewWriteBatch() WriteBatch {
 
 func (p *Pebble) getFloor(key string) (returnedKey string, value []byte, closer io.Closer, err error) {
 	// There is no <= comparison in Pebble
-	// We have to first check for == and then for <
-	value, closer, err = p.db.Get([]byte(key))
-	if err != nil && !errors.Is(err, pebble.ErrNotFound) {
+	// We have to first check for == and then for <, on one iterator: both looks
+	// must see the same state of the database, or a write committed in between
+	// makes the answer a record that never was the floor
+	it, err := p.db.NewIter(nil)
+	if err != nil {
 		return "", nil, nil, err
 	}
 
-	if err == nil {
+	if it.SeekGE([]byte(key)) && string(it.Key()) == key {
 		// We found record with key ==
-		return key, value, closer, nil
+		value, err = it.ValueAndErr()
+		return key, value, it, err
 	}
 
-	// Do < search
-	return p.getLower(key)
+	// No record with that key: the closest one below it, in the same state of the database
+	if !it.SeekLT([]byte(key)) {
+		return "", nil, nil, multierr.Combine(it.Close(), pebble.ErrNotFound)
+	}
+
+	returnedKey = string(it.Key())
+	value, err = it.ValueAndErr()
+	return returnedKey, value, it, err
 }
 
 func (p *Pebble) getCeiling(key string) (returnedKey string, value []byte, closer io.Closer, err error) {
